@@ -789,8 +789,17 @@ fn from_to_float<T: Fl, M3: MatX<T>, M4: MatX<T>>(
             _ => {}
         }
     }
-    let exact_anti = kind == 0 || kind == 1;
-    let to: [T; 3] = if exact_anti {
+    let exact_anti = kind == 0 || kind == 1 || kind == 3;
+    if kind == 3 {
+        // integer components: -k*from is exactly representable for small integer k that are not
+        // powers of two, so the pair is exactly opposite but |from||to| and from.to round differently
+        let top = if T::EPS > 1e-10 { 4000 } else { 4_000_000 };
+        from = [T::of(rng.range_i64(-top, top) as f64), T::of(rng.range_i64(-top, top) as f64), T::of(rng.range_i64(-top, top) as f64)];
+    }
+    let to: [T; 3] = if kind == 3 {
+        let k = T::of([3.0, 5.0, 6.0, 7.0, 9.0, 10.0, 11.0, 13.0][rng.usize_below(8)]);
+        [-(from[0] * k), -(from[1] * k), -(from[2] * k)]
+    } else if exact_anti {
         // to = -2^j from, bit exact
         let k = T::of([0.25, 0.5, 1.0, 2.0, 4.0][rng.usize_below(5)]);
         [-(from[0] * k), -(from[1] * k), -(from[2] * k)]
@@ -810,7 +819,7 @@ fn from_to_float<T: Fl, M3: MatX<T>, M4: MatX<T>>(
     let (f, t) = (f64v(from), f64v(to));
     let ty = format!("{}<{}>", lay, T::TY);
     let ty = ty.as_str();
-    let desc = format!("from = {:?}, to = {:?}{}", from, to, if exact_anti { " (to = -2^j * from, bit exact)" } else { "" });
+    let desc = format!("from = {:?}, to = {:?}{}", from, to, if kind == 3 { " (to = -k * from with integer components and integer k, exactly representable)" } else if exact_anti { " (to = -2^j * from, bit exact)" } else { "" });
     let (lf, lt) = (len64(f), len64(t));
     if lf == 0.0 || lt == 0.0 {
         sub.inconclusive("outside_domain:zero_direction");
@@ -994,7 +1003,7 @@ fn main() {
         }));
     }
     {
-        let proto = Sub::new("from_to_float", "rotation_from_to_3d on f32 and f64 (Quaternion, Mat3, Mat4, both layouts): random direction pairs with magnitudes 1e-3..1e3, nearly (anti)parallel pairs, and bit-exact opposite pairs to = -2^j from (random and axis-aligned / in-plane sources for both sub-branches). Oracle in f64: |q|^2 = 1 within 512 eps; the unit from-direction is mapped onto the unit to-direction within 64 eps (1 + 1/cos(theta/2)) (4*64 eps for exact opposites); pairs within ~1e-3 rad of opposite without being exactly opposite are ill_conditioned; non-trivial = angle > 2.5 degrees")
+        let proto = Sub::new("from_to_float", "rotation_from_to_3d on f32 and f64 (Quaternion, Mat3, Mat4, both layouts): random direction pairs with magnitudes 1e-3..1e3, nearly (anti)parallel pairs, bit-exact opposite pairs to = -2^j from (random and axis-aligned / in-plane sources for both sub-branches), and exactly opposite integer pairs to = -k from with k in {3,5,6,7,9,10,11,13} (|from||to| and from.to round differently there). Oracle in f64: |q|^2 = 1 within 512 eps; the unit from-direction is mapped onto the unit to-direction within 64 eps (1 + 1/cos(theta/2)) (4*64 eps for exact opposites); pairs within ~1e-3 rad of opposite without being exactly opposite are ill_conditioned; non-trivial = angle > 2.5 degrees")
             .with_floor(n)
             .require(&["Quaternion::rotation_from_to_3d", "Mat3::rotation_from_to_3d", "Mat4::rotation_from_to_3d"]);
         rep.push(run_cases(&cfg, proto, n, |s, i| {
